@@ -289,7 +289,7 @@ greedy = Contract(
         4: Loop(pos="t3", inv=INV_G + ["k in self.nodes"]),
     },
     ensures=[FRESH, "exists(keys(self.nodes), lambda n: True)", "self.appearances == old(self.appearances) and self.sizes == old(self.sizes)"],
-    assumptions=["the scoring function, the sizes and the legs of candidates are arbitrary (they only steer the search); lookups node_sizes[..] / self.nodes[..] while scoring"
+    assumptions=["the scoring function, the sizes and the legs of candidates are arbitrary (they only steer the search) and the nested scoring function is pure (its body is not analysed); lookups node_sizes[..] / self.nodes[..] while scoring"
                  " candidates are abstracted (their safety rests on the edge map being consistent with the nodes, which is not under contract);"
                  " itertools.combinations yields pairs of different members; heapq keeps the multiset of entries; termination is not proved"],
 )
